@@ -270,20 +270,25 @@ func (k Keeper) deductUnbondingDelegation(ctx context.Context, delAddr sdk.AccAd
 		return math.Int{}, types.ErrNoUnbondingDelegationEntries
 	}
 	removeAmt := math.ZeroInt()
-	for i, u := range ubd.Entries {
-		if u.Balance.LT(tokens) {
+	// entries that are used up are dropped, the first one that covers the rest is reduced, later ones are kept as they are
+	// (the kept entries are collected instead of removing from the slice that is being ranged over)
+	entries := make([]stakingtypes.UnbondingDelegationEntry, 0, len(ubd.Entries))
+	for _, u := range ubd.Entries {
+		switch {
+		case tokens.IsZero():
+			entries = append(entries, u)
+		case u.Balance.LT(tokens):
 			tokens = tokens.Sub(u.Balance)
 			removeAmt = removeAmt.Add(u.Balance)
-			ubd.RemoveEntry(int64(i))
-		} else {
+		default:
 			u.Balance = u.Balance.Sub(tokens)
 			u.InitialBalance = u.InitialBalance.Sub(tokens)
-			ubd.Entries[i] = u
+			entries = append(entries, u)
 			removeAmt = removeAmt.Add(tokens)
 			tokens = math.ZeroInt()
-			break
 		}
 	}
+	ubd.Entries = entries
 
 	if len(ubd.Entries) == 0 {
 		err = k.stakingKeeper.RemoveUnbondingDelegation(ctx, ubd)
